@@ -17,7 +17,7 @@ from ..srcmodel import AnalysisError, U, clone
 
 
 def T(e):
-    return U(e).replace(' ', '')
+    return U(e).replace(' ', '') if e is not None else ''
 
 
 def is_none(e):
@@ -146,6 +146,7 @@ class BlockEval:
         self._dead = False
         self._pc_out = []
         self.opaque = set()         # names computed by loops this walker does not summarise
+        self.substores = []         # subscript stores: (expanded container, expanded index, expanded value, pc, loops, stmt)
         self.stores = []            # attribute stores: (target text, expanded value, stmt)
         self.objects = set()        # names mutated through method calls
         self.inits = {}             # their initial values
@@ -207,6 +208,15 @@ class BlockEval:
         return False
 
     def stmt(self, s, pc):
+        if isinstance(s, ast.Assign) and len(s.targets) == 1 and isinstance(s.targets[0], ast.Subscript):
+            t = s.targets[0]
+            self.substores.append((self.sub(t.value, pc), self.sub(t.slice, pc), self.sub(s.value, pc), list(pc), list(self.loopstack), s))
+        if isinstance(s, ast.AugAssign) and isinstance(s.target, ast.Subscript) and isinstance(s.target.value, ast.Name):
+            nm = s.target.value.id
+            ev = Event('update', nm, (self.sub(s.target.slice, pc), s.op, self.sub(s.value, pc)), pc, s, self.loopstack)
+            ev.base = self.sub(ast.Name(id=nm, ctx=ast.Load()), pc)
+            self.events.append(ev)
+            return
         if self.loops and self.append_event(s, pc):
             return
         if isinstance(s, ast.Assign):
